@@ -1405,6 +1405,10 @@ def _chain(tr: Tr, side: dict) -> list[str]:
         # `if (sys, prefix) not in self.systems: <insert>`
         guard = 'AddSkipMounted'
         stmts = stmts[0].body
+    if len(stmts) == 1 and isinstance(stmts[0], ast.If) and isinstance(stmts[0].test, ast.UnaryOp) \
+            and isinstance(stmts[0].test.op, ast.Not) and stmts[0].body and stmts[0].orelse:
+        # `if not flag: A else: B`  ->  `if flag: B else: A`
+        stmts = [ast.copy_location(ast.If(test=stmts[0].test.operand, body=stmts[0].orelse, orelse=stmts[0].body), stmts[0])]
     ok = (len(stmts) == 1 and isinstance(stmts[0], ast.If) and _name(stmts[0].test) in prio
           and len(stmts[0].body) == 1 and len(stmts[0].orelse) == 1)
     if not ok:
